@@ -51,6 +51,7 @@ func runC03(c *report.Ctx) {
 	checkGatePrimitive(c)
 	checkNoServerTimeouts(c)
 	checkAgentMapsCleared(c) // identifiers of an earlier generation must not resolve and walk the new generation's gates
+	checkRegisteredAgentsSize(c)
 	checkTracerWrappers(c)
 }
 
